@@ -333,6 +333,18 @@ func (app *App) txDeliverer() txDeliverer {
 
 		gas := txCtx.State.ConsumedGas()
 
+		// a block may carry transactions that never went through the mempool check of this
+		// (or any honest) node, so the stateless and signature validation is repeated here
+		_, err = handler.Validate(txCtx, *tx)
+		if err != nil {
+			app.logger.Debug("Deliver Tx invalid: ", err.Error())
+			app.Context.deliver.DiscardTxSession()
+			return ResponseDeliverTx{
+				Code: CodeNotOK.uint32(),
+				Log:  err.Error(),
+			}
+		}
+
 		ok, response := handler.ProcessDeliver(txCtx, tx.RawTx)
 		feeOk, feeResponse := handler.ProcessFee(txCtx, *tx, gas, storage.Gas(len(msg.Tx)), storage.Gas(response.GasUsed))
 
